@@ -2,10 +2,10 @@
    wire, returned mids and residual queue, so that implementation runs can be compared with the model
    on the same abstract schedule. *)
 From Coq Require Import Extraction ExtrOcamlBasic.
-From PahoV Require Import Base.Prelude Conc.Sched.
+From PahoV Require Import Base.Prelude Conc.Sched Conc.LockOrder.
 Extraction Language OCaml.
 
 Definition entries : list (Z * (list Z -> list Z)) :=
-  [ (1, entry_sched) ].
+  [ (1, entry_sched); (2, entry_lock_edges) ].
 
 Extraction "model_sched.ml" entries.
